@@ -30,7 +30,7 @@ A_RR = z3.ArraySort(Ref, Ref)
 
 GHOST_ARRAYS = {
     "kind": A_RI, "loc": A_RI, "creq": A_RB, "cever": A_RB, "tok": A_RB, "mtok": A_RB, "tid": A_RI, "grp": A_RS,
-    "aw": A_RR, "ecb": A_RR, "ccb": A_RR, "tname": A_RS, "wt": z3.ArraySort(I, Ref), "msem": A_RR,
+    "aw": A_RR, "ecb": A_RR, "ccb": A_RR, "tname": A_RS, "wt": z3.ArraySort(I, Ref), "msem": A_RR, "fcan": A_RB,
 }
 
 TRUSTED = [
@@ -111,6 +111,8 @@ def symbolic_pool(cls: str, prefix: str = "p") -> Dict[str, V]:
     sh["_pools"] = SeqV(fresh(prefix + "_npools", I), [fresh(prefix + "_pools", z3.ArraySort(I, Ref))], RefL(), mutable=True)
     sh["size"] = ExtV(fresh(prefix + "_szinf", B), fresh(prefix + "_sz", I))
     sh["forgotten"] = IntV(fresh(prefix + "_forgotten", I))
+    sh["closing"] = BoolV(fresh(prefix + "_closing", B))  # ghost: gather_and_close has locked the pool and is waiting
+    sh["closing2"] = BoolV(fresh(prefix + "_closing2", B))  # ghost: ... and its wait for the spawners is over
     sh["clsname"] = StrV(fresh("clsname", S))
     for k, srt in GHOST_ARRAYS.items():
         sh[k] = ArrV(fresh(prefix + "_" + k, srt))
@@ -185,6 +187,10 @@ def inv_clauses(sh, simple: bool = False) -> List[Tuple[str, z3.ExprRef, Tuple[s
     cl.append(("I10b.meta-sets-hold-spawners", z3.ForAll([g, t], z3.Implies(z3.And(p.M.has(g), p.Mset(g, t)), z3.And(t != NONE, p.is_spawner(t), sel(p.grp, t) == g))), ("C07",)))
     cl.append(("I10c.cancelled-metas-are-spawners", z3.ForAll([t], z3.Implies(p.MC.has(t), z3.And(t != NONE, p.is_spawner(t)))), ("C07",)))
     cl.append(("I11.closed-means-no-live-spawner", z3.Implies(p.closed, z3.ForAll([t], z3.Implies(p.is_spawner(t), z3.Or(lt == L_DONE, sel(p.creq, t))))), ("C08",)))
+    cl.append(("I19.wrappers-never-finish-cancelled", z3.ForAll([t], z3.Implies(sel(kind, t) == K_WRAPPER, z3.Not(sel(p.fcan, t)))), ("C08", "C12")))
+    closing, closing2 = sh["closing"].t, sh["closing2"].t
+    cl.append(("I20.closing-means-locked", z3.And(z3.Implies(closing, p.locked), z3.Implies(closing2, closing)), ("C08",)))
+    cl.append(("I21.closing-after-spawners-done", z3.Implies(closing2, z3.ForAll([t], z3.Implies(p.is_spawner(t), z3.Or(lt == L_DONE, sel(p.creq, t))))), ("C08",)))
     cl.append(("I12.waiters-only-when-full", z3.Implies(p.sem.P > 0, z3.Or(v.eq_int(0), p.sem.g > 0)), ("C01",)))
     if simple:
         sc = sh["_start_calls"].t
@@ -207,7 +213,7 @@ def guar_clauses(old, new, me) -> List[Tuple[str, z3.ExprRef, Tuple[str, ...]]]:
     cl.append(("G4.thread-ghost-immutable", z3.ForAll([t], z3.Implies(sel(o.kind, t) != K_NONE, z3.And(
         sel(n.kind, t) == sel(o.kind, t), sel(n.tid, t) == sel(o.tid, t), sel(n.grp, t) == sel(o.grp, t), sel(n.aw, t) == sel(o.aw, t),
         sel(n.ecb, t) == sel(o.ecb, t), sel(n.ccb, t) == sel(o.ccb, t), sel(n.tname, t) == sel(o.tname, t), sel(n.msem, t) == sel(o.msem, t),
-        z3.Implies(sel(o.cever, t), sel(n.cever, t)), z3.Implies(sel(o.loc, t) == L_DONE, sel(n.loc, t) == L_DONE)))), ("C03", "C11")))
+        z3.Implies(sel(o.cever, t), sel(n.cever, t)), z3.Implies(sel(o.loc, t) == L_DONE, z3.And(sel(n.loc, t) == L_DONE, sel(n.fcan, t) == sel(o.fcan, t)))))), ("C03", "C11")))
     cl.append(("G4w.wrapper-of-id-stable", z3.ForAll([i], z3.Implies(z3.And(0 <= i, i < o.n), sel(n.wt, i) == sel(o.wt, i))), ("C11",)))
     cl.append(("G5.lifecycle-moves", z3.ForAll([i], z3.And(
         z3.Implies(n.R.has(i), z3.Or(o.R.has(i), i >= o.n)),
@@ -216,6 +222,9 @@ def guar_clauses(old, new, me) -> List[Tuple[str, z3.ExprRef, Tuple[str, ...]]]:
     cl.append(("G6.other-threads-untouched", z3.ForAll([t], z3.Implies(z3.And(t != me, sel(o.kind, t) != K_NONE), z3.And(
         sel(n.loc, t) == sel(o.loc, t), sel(n.tok, t) == sel(o.tok, t), sel(n.mtok, t) == sel(o.mtok, t)))), ("C02",)))
     cl.append(("G7.size-fixed", n.size.same(o.size), ("C01",)))
+    cl.append(("G9.spawner-requests-stick", z3.ForAll([t], z3.Implies(z3.And(o.is_spawner(t), sel(o.creq, t)), sel(n.creq, t))), ("C07",)))
+    cl.append(("G10.no-new-task-once-spawners-are-done", z3.Implies(old["closing2"].t, z3.ForAll([t], z3.Implies(sel(o.kind, t) == K_NONE, sel(n.kind, t) != K_WRAPPER))), ("C08",)))
+    cl.append(("G8.no-new-spawner-while-closing", z3.Implies(old["closing"].t, z3.ForAll([t], z3.Implies(sel(o.kind, t) == K_NONE, z3.Not(n.is_spawner(t))))), ("C08",)))
     return cl
 
 
@@ -304,8 +313,10 @@ class PoolTheory(Theory):
         packed = z3.substitute(pack(*[f for _n, f, _p in cls_]), *pairs)
         return [(n, packed.arg(k), p) for k, (n, _f, p) in enumerate(cls_)]
 
+    private_keys = ()  # ghost owned by the thread under verification (never havocked by interference)
+
     def shared_keys(self, st: St):
-        return [k for k in st.sh if k not in SHARED_IMMUTABLE]
+        return [k for k in st.sh if k not in SHARED_IMMUTABLE and k not in self.private_keys]
 
     loops_need_inv = False  # set by thread units whose loops contain observation points
 
@@ -388,9 +399,17 @@ class PoolTheory(Theory):
         st.aux["seg0_inv"] = True
         st.trace.append(("obs", label))
 
+    before_observe = None  # unit hook (st, label): ghost updates at the end of a segment
+    segment_frame = ()  # components no segment of the unit under verification may write
+
     def observe(self, st: St, label: str, newloc=None) -> None:
         if newloc is not None:
             self.set_ghost(st, "loc", st.me, z3.IntVal(newloc))
+        if self.before_observe is not None:
+            self.before_observe(st, label)
+        for k in self.segment_frame:
+            if not same_value(st.aux["seg0"][k], st.sh[k]):
+                self.ip.require(st, f"frame:segment-does-not-write:{k}@{label}", eq_value(st.aux["seg0"][k], st.sh[k]), None)
         self.check_point(st, label)
         self.interfere(st, label)
 
@@ -458,6 +477,30 @@ class PoolTheory(Theory):
         n.tokarr = sem.tokarr
         self.ip.place_set(st, place, n)
         return [(st, NORMAL)]
+
+    def ev_dict_display(self, st, fr, e):
+        """{**a, **b}: a fresh dict, the union of two dicts of the same shape (later entries win)"""
+        ip = self.ip
+        if not all(k is None for k in e.keys) or len(e.values) != 2:
+            raise Unsupported("dict display other than {**a, **b}")
+        out = []
+        for s, vs in ip.ev_seq(st, fr, e.values):
+            if isinstance(vs, Exit):
+                out.append((s, vs))
+                continue
+            a, b = (ip.deref(s, v) for v in vs)
+            if not (isinstance(a, DictV) and isinstance(b, DictV) and a.ksort == b.ksort and len(a.cols) == len(b.cols)):
+                raise Unsupported("{**a, **b} over different shapes")
+            u = DictV.symbolic("merged", a.ksort, a.layout)
+            k = z3.Const("k!m", a.ksort)
+            s.assume(z3.ForAll([k], z3.Select(u.mem, k) == z3.Or(a.has(k), b.has(k))))
+            for cu, ca, cb in zip(u.cols, a.cols, b.cols):
+                s.assume(z3.ForAll([k], z3.Select(cu, k) == z3.If(b.has(k), z3.Select(cb, k), z3.Select(ca, k))))
+            s.assume(z3.And(u.card >= a.card, u.card >= b.card, u.card <= a.card + b.card))
+            for f in u.qfacts():
+                s.assume(f)
+            out.append((s, u))
+        return out
 
     # --- constructors ---------------------------------------------------------------------------------------
     def construct(self, st, fr, c: ClassV, pos, kws, node):
@@ -662,6 +705,7 @@ class PoolTheory(Theory):
             for s, b in ip.branch(st, d.has(k), "pop"):
                 if b:
                     val = d.get(k)
+                    self.note_forgotten(s, fr, place, z3.IntVal(1))
                     ip.place_set(s, place, ip.place_get(s, place).remove(k))
                     out.append((s, val))
                 elif len(pos) > 1:
@@ -685,6 +729,7 @@ class PoolTheory(Theory):
                 out.append((s, place.sub(("key", k)) if ip.is_mutable(val) else val))
             return out
         if name == "clear":
+            self.note_forgotten(st, fr, place, d.card)
             ip.place_set(st, place, d.cleared())
             return [(st, NoneV())]
         if name == "values":
@@ -711,6 +756,14 @@ class PoolTheory(Theory):
                     out.append((s, Exit(Exit.RAISE, ExcV("KeyError", []))))
             return out
         raise Unsupported(f"dict.{name}()")
+
+    FORGET_FRAMES = ("pool.BaseTaskPool.flush", "pool.BaseTaskPool.gather_and_close")
+    REGISTRIES = ("_tasks_running", "_tasks_cancelled", "_tasks_ended")
+
+    def note_forgotten(self, st, fr, place, count) -> None:
+        """ghost: ids removed from a registry by flush / gather_and_close are *forgotten* (C03 counting)"""
+        if place is not None and place.root[0] == "sh" and place.root[1] in self.REGISTRIES and not place.path and fr.qual in self.FORGET_FRAMES:
+            st.sh["forgotten"] = IntV(st.sh["forgotten"].t + count)
 
     def set_method(self, st, fr, place, sv: SetV, name, pos, kws, node):
         ip = self.ip
@@ -804,6 +857,7 @@ class PoolTheory(Theory):
         self.set_ghost(st, "creq", t, z3.BoolVal(False))
         self.set_ghost(st, "cever", t, z3.BoolVal(False))
         self.set_ghost(st, "mtok", t, z3.BoolVal(False))
+        self.set_ghost(st, "fcan", t, z3.BoolVal(False))
         a = coro.args
         if kinds[q] == K_WRAPPER:
             tidv = a["task_id"]
@@ -1055,6 +1109,8 @@ class PoolTheory(Theory):
         s1.assume(z3.ForAll([t], z3.Implies(z3.Or([pr(t) for pr in preds]) if preds else z3.BoolVal(False), self.ghost(s1, "loc", t) == L_DONE)))
         if not self.allow_self_cancel:
             s1.assume(z3.Not(self.ghost(s1, "creq", s1.me)))
+        if getattr(self, "after_gather_ok", None) is not None:
+            self.after_gather_ok(s1, fr, label)
         out.append((s1, RefV(fresh("results", Ref))))
         for s2, b in ip.branch(st.fork(), re.t, "return_exceptions"):
             if b:
@@ -1066,6 +1122,8 @@ class PoolTheory(Theory):
             out.append((s3, Exit(Exit.RAISE, e)))
             s4 = s2.fork()
             s4.tags.append(label + ":child-cancelled")
+            tc = fresh("cancelled_child", Ref)
+            s4.assume(z3.And(z3.Or([pr(tc) for pr in preds]) if preds else z3.BoolVal(False), self.ghost(s4, "loc", tc) == L_DONE, self.ghost(s4, "fcan", tc)))
             e2 = ExcV("CancelledError", [])
             e2.origin = "child"
             out.append((s4, Exit(Exit.RAISE, e2)))
